@@ -159,13 +159,15 @@ pub const BUILTINS: [(&str, &[(&str, bool)]); 10] = [
     ("drawCircle", &[("x0", false), ("y0", false), ("radius", false), ("color", false)]),
 ];
 
-const NAME_POOL: [&str; 51] = [
+const NAME_POOL: [&str; 56] = [
     "a", "b", "c", "i", "j", "k", "n", "x", "y", "v", "m", "t", "res", "tmp", "val", "idx", "sum",
     "cnt", "_u", "x1", "y2", "iff", "typ", "procs", "elsex", "of_", "A", "Vec", "var1", "if2", "of3",
     "proc0", "type9", "while_", "ref7", "array2", "intVec", "exitAll", "timer", "printi2", "int_", "readcx",
     // boundary spellings: lone underscores, prefixes of `main`, a very long name
     "_", "__", "a_b_c", "X9", "mainx", "main_", "m4in",
     "a_rather_long_identifier_name_with_many_parts_0123456789_and_more_parts_ABCDEFGHIJKLMNOPQRSTUVWXYZ_end",
+    // other case than a keyword / predefined name: plain identifiers
+    "Main", "Int", "Printi", "If", "WHILE",
     // longer than 256 characters
     "an_identifier_of_more_than_two_hundred_and_fifty_six_characters_0123456789_abcdefghijklmnopqrstuvwxyz_ABCDEFGHIJKLMNOPQRSTUVWXYZ_0123456789_abcdefghijklmnopqrstuvwxyz_ABCDEFGHIJKLMNOPQRSTUVWXYZ_0123456789_abcdefghijklmnopqrstuvwxyz_ABCDEFGHIJKLMNOPQRSTUVWXYZ_0123456789_the_end",
 ];
